@@ -245,11 +245,11 @@ def touchEqW (opt : Bool) (p : Target) : Arr → Arr → Nat → Bool
        kind ks == kind ks' && kind vs == kind vs' &&
        (match ks with
         | .prim _ kv kvals =>
-          touchEqW opt p ks ks' i &&
+          touchEqW false p ks ks' i &&
           (match vs with
            | .bytes _ _ _ _ =>
              (match isValid kv i, kvals[i]? with
-              | .ok true, some k => if 0 ≤ k then touchEqW opt p vs vs' k.toNat else true
+              | .ok true, some k => if 0 ≤ k then touchEqW false p vs vs' k.toNat else true
               | _, _ => true)
            | _ => true)
         | _ => true)
